@@ -67,17 +67,40 @@ example : sm9_mac (List.replicate 31 0) [1] = .panic := (mac_panic_iff _ _).2 (b
 
 /-! ### decrypt -/
 
-/-- decision logic of decrypt stated outright: length window, prefix 04, C1 on the curve, K1 not all zero,
-C3 = SM3(C2 ‖ K2), M = C2 ⊕ K1 -/
+/-- decision logic of decrypt stated outright: length window, prefix 04, both C1 coordinates field elements (< p: the fixed
+code), C1 on the curve, K1 not all zero, C3 = SM3(C2 ‖ K2), M = C2 ⊕ K1 -/
 theorem decrypt_ok_iff (key : Sm9EncKey) (idb data m : List UInt8) :
     key.decrypt idb data = .ok m ↔
       98 ≤ data.length ∧ data.length ≤ 352 ∧ data.head? = some 0x04 ∧
+      beNat ((data.drop 1).take 32) < Spec.SM9.p ∧ beNat ((data.drop 33).take 32) < Spec.SM9.p ∧
       ∃ c1, Point.from_bytes (data.take 65) = .ok c1 ∧ c1.is_on_curve = true ∧
         let k := kdf ((data.take 65).drop 1 ++ (sm9_u256_pairing key.de c1).to_bytes_be ++ idb) 287
         let mlen := data.length - 97
         all_zero (k.take mlen) = false ∧ sm3 (data.drop 97 ++ ((k.drop mlen).take 32)) = (data.drop 65).take 32 ∧
         m = List.zipWith (· ^^^ ·) (data.drop 97) (k.take mlen) :=
   Proofs.SM9Logic.decrypt_ok_iff key idb data m
+
+/-- the repaired defect: a C1 coordinate that is not a field element (x ≥ p or y ≥ p) is `InvalidPoint` — the unfixed code
+reduced it modulo p in `Point::from_bytes` and went on, keying the KDF with the octets as received -/
+theorem decrypt_noncanonical_c1 (key : Sm9EncKey) (idb data : List UInt8) (h1 : 98 ≤ data.length)
+    (h2 : data.length ≤ 352) (hh : data.head? = some 0x04)
+    (h : Spec.SM9.p ≤ beNat ((data.drop 1).take 32) ∨ Spec.SM9.p ≤ beNat ((data.drop 33).take 32)) :
+    key.decrypt idb data = .err "InvalidPoint" :=
+  Proofs.SM9Logic.decrypt_noncanonical key idb data h1 h2 hh h
+
+/-- regression witness: the ciphertext the unfixed code decrypted to 01 02 03 under the Annex C master key for "Bob"
+(C1 = [3]Q_B re-encoded as (x + p) ‖ y, C2 and C3 computed for these octets) is now rejected — under every key -/
+def noncanonicalCt : List UInt8 := [
+   0x04, 0xEB, 0x1E, 0x64, 0xA6, 0xE1, 0x59, 0xD7, 0x19, 0xFF, 0x71, 0xA6, 0x4B, 0x83, 0xB5, 0x6F, 0xF1, 0x28, 0xE2, 0xD2,
+   0x95, 0x33, 0xF7, 0xE5, 0x91, 0xF4, 0xE5, 0xDA, 0xAA, 0x22, 0x63, 0xE4, 0xDD, 0x7B, 0x94, 0x79, 0x1B, 0xA6, 0xE2, 0x84,
+   0x02, 0xF7, 0xAA, 0x65, 0x42, 0x54, 0x30, 0xC3, 0xC6, 0x04, 0x68, 0x4F, 0xCF, 0x57, 0x2D, 0x0B, 0x7C, 0x0F, 0xF3, 0x25,
+   0x5B, 0x3E, 0xD8, 0x5A, 0x55, 0xBD, 0xAB, 0x7E, 0xD5, 0x14, 0x94, 0xBE, 0xC2, 0x65, 0x4F, 0x10, 0xAC, 0x13, 0xD5, 0xBB,
+   0xE1, 0x35, 0x8E, 0xA7, 0x96, 0xB0, 0xC8, 0xD6, 0x51, 0x7A, 0xE2, 0xDF, 0xC4, 0x03, 0x7A, 0x86, 0x69, 0xE5, 0xCC, 0x7C]
+example : noncanonicalCt.length = 100 ∧ Spec.SM9.p ≤ beNat ((noncanonicalCt.drop 1).take 32)
+    ∧ beNat ((noncanonicalCt.drop 1).take 32) - Spec.SM9.p < Spec.SM9.p := by decide +kernel
+example (key : Sm9EncKey) (idb : List UInt8) : key.decrypt idb noncanonicalCt = .err "InvalidPoint" :=
+  decrypt_noncanonical_c1 key idb noncanonicalCt (by decide +kernel) (by decide +kernel) (by decide +kernel)
+    (Or.inl (by decide +kernel))
 
 /-- the left-hand side can fail for each reason separately: a 97-byte input is outside the window -/
 example (key : Sm9EncKey) (idb m : List UInt8) : key.decrypt idb (List.replicate 97 4) ≠ .ok m := by
